@@ -45,6 +45,9 @@ func loadAll(repo, verif string) (*Prog, error) {
 	if data, err := os.ReadFile(filepath.Join(verif, "paramnames.json")); err == nil {
 		json.Unmarshal(data, &P.paramSnap)
 	}
+	if data, err := os.ReadFile(filepath.Join(verif, "localnames.json")); err == nil {
+		json.Unmarshal(data, &P.localSnap)
+	}
 	if c := P.specs.lemmaCycle(); c != "" {
 		return nil, fmt.Errorf("circular lemma uses: %s", c)
 	}
@@ -79,6 +82,20 @@ func main() {
 				fmt.Printf("  %s: %s %dms [%s] %s\n", o.Name, o.Result.Verdict, o.Result.Ms, o.Result.Solver, o.Goal)
 			}
 		}
+	case "localnames":
+		P, err := loadAll("/repo", "/verif")
+		if err != nil {
+			fmt.Fprintln(os.Stderr, err)
+			os.Exit(2)
+		}
+		snap := map[string][][2]string{}
+		for k := range P.specs.Funcs {
+			if fn := P.funcs[k]; fn != nil && fn.Blocks != nil {
+				snap[k] = P.localsOf(fn)
+			}
+		}
+		js, _ := json.MarshalIndent(snap, "", " ")
+		fmt.Println(string(js))
 	case "paramnames":
 		// snapshot of the parameter names of every function under contract (written to stdout)
 		P, err := loadAll("/repo", "/verif")
